@@ -11,6 +11,7 @@ hundreds; violations carry the single configuration they belong to."""
 import itertools
 
 import py4hw
+from mc import core
 from mc import comb
 from mc.refmodels import arith as A
 
@@ -303,7 +304,7 @@ def _probe_raise(c):
     try:
         sim = hw.getSimulator()
     except Exception as e:
-        py4hw.Wire.prepared = []
+        core.reset_prepared()
         return (vecs[0] if vecs else None), 'getSimulator', e
     for x in vecs:
         for (n, w), v in zip(ins, x):
@@ -311,7 +312,7 @@ def _probe_raise(c):
         try:
             sim.propagateAll()
         except Exception as e:
-            py4hw.Wire.prepared = []
+            core.reset_prepared()
             return x, 'propagateAll', e
     return None
 
@@ -333,7 +334,7 @@ def run_config(c):
     try:
         res = comb.run_comb(c, build, ref_rec, 'C07', alphabets='corner' if c.get('corner') else None)
     except Exception as e0:
-        py4hw.Wire.prepared = []
+        core.reset_prepared()
         pr = _probe_raise(c)
         x, phase, e = pr if pr is not None else (None, 'unknown', e0)
         if x is None and pr is not None:
@@ -388,7 +389,7 @@ def replay(v):
     try:
         hw, ins, outs = build(c)
     except Exception as e:
-        py4hw.Wire.prepared = []
+        core.reset_prepared()
         return {'config': c, 'constructor_rejected': repr(e)[:200], 'violates': False}
     x = v['trace'][0] if v.get('trace') else [0] * len(ins)
     xd = dict(zip([n for n, _ in ins], x))
@@ -401,7 +402,7 @@ def replay(v):
             w.put(val)
         sim.propagateAll()
     except Exception as e:
-        py4hw.Wire.prepared = []
+        core.reset_prepared()
         return {'config': c, 'inputs': xd, 'expected': exp, 'raised': repr(e)[:300], 'violates': True}
     got = {n: w.get() for n, w in outs}
     bad = [n for n in exp if exp[n] is not None and got.get(n) != exp[n]]
